@@ -10,6 +10,7 @@ def _(self, node, expected_type):
     properties('C02', 'C01', 'C08', 'C17')
     requires(is_scalar_type(expected_type))
     result_sort('RecResult')
+    ensures(forall_in(result[0], lambda r: shape_ok(node, r)))
     # built-ins are recognised by the exact YAML tag, on scalar nodes only
     ensures(result[0] == (tyset_of(expected_type)
                           if node.kind == SCALAR
@@ -26,6 +27,7 @@ def _(self, node, expected_type):
     properties('C02', 'C01', 'C08', 'C17')
     requires(expected_type == T_PATH)
     result_sort('RecResult')
+    ensures(forall_in(result[0], lambda r: shape_ok(node, r)))
     ensures(result[0] == (tyset_of(T_PATH)
                           if node.kind == SCALAR and node.tag == STR_TAG
                           else tyset_empty()))
@@ -38,6 +40,8 @@ def _(self, node, expected_type):
     properties('C02', 'C03', 'C01', 'C08', 'C16', 'C13')
     requires(wf_ty(expected_type))
     result_sort('RecResult')
+    ensures(forall_in(result[0], lambda r: concrete_ok(r)))
+    ensures(forall_in(result[0], lambda r: shape_ok(node, r)))
     ensures(result[0] == rec(node, expected_type))
 
 
@@ -46,13 +50,17 @@ def _(self, node, expected_type):
     properties('C02', 'C03', 'C13')
     requires(ty_is_union(expected_type) and wf_ty(expected_type))
     result_sort('RecResult')
+    ensures(forall_in(result[0], lambda r: concrete_ok(r)))
+    ensures(forall_in(result[0], lambda r: shape_ok(node, r)))
     sort('causes', 'Seq[RErr]')
     sort('recognized_types', 'Set[Ty]')
     ensures(result[0] == fixbool(rec_union(
         node, ty_members(expected_type), len(ty_members(expected_type)))))
     invariant(0, lambda _i: _i <= len(ty_members(expected_type))
               and recognized_types == rec_union(
-                  node, ty_members(expected_type), _i))
+                  node, ty_members(expected_type), _i)
+              and forall_in(recognized_types, lambda r: shape_ok(node, r))
+              and forall_in(recognized_types, lambda r: concrete_ok(r)))
 
 
 @contract("yatiml/recognizer.py::Recognizer.__recognize_list")
@@ -60,6 +68,7 @@ def _(self, node, expected_type):
     properties('C02', 'C01', 'C13')
     requires(ty_is_list(expected_type) and wf_ty(expected_type))
     result_sort('RecResult')
+    ensures(forall_in(result[0], lambda r: shape_ok(node, r)))
     ensures(result[0] == rec_list(node, expected_type))
     invariant(0, lambda _i: _i <= len(node.items) and first_bad(
         node.items, ty_elem(expected_type), _i) == -1)
@@ -70,6 +79,41 @@ def _(self, node, expected_type):
     properties('C02', 'C01', 'C13')
     requires(ty_is_dict(expected_type) and wf_ty(expected_type))
     result_sort('RecResult')
+    ensures(forall_in(result[0], lambda r: shape_ok(node, r)))
     ensures(result[0] == rec_dict(node, expected_type))
     invariant(0, lambda _i: _i <= len(node.pairs) and first_bad_pair(
         node.pairs, ty_key(expected_type), ty_dval(expected_type), _i) == -1)
+
+
+@contract("yatiml/recognizer.py::Recognizer.__recognize_user_class")
+def _(self, node, expected_type):
+    properties('C02', 'C03', 'C10', 'C08')
+    requires(reg_has(expected_type) and wf_ty(expected_type))
+    result_sort('RecResult')
+    ensures(forall_in(result[0], lambda r: shape_ok(node, r)))
+    ensures(result[0] == (tyset_of(expected_type)
+                          if matches1(node, expected_type)
+                          else tyset_empty()))
+    invariant(1, lambda _i: _i <= cls_nparams(expected_type)
+              and params_ok(node, expected_type, _i))
+    invariant(3, lambda _i, _acc: _i <= len(node.pairs)
+              and len(_acc) == cnt(node.pairs, name, _i))
+
+
+@contract("yatiml/recognizer.py::Recognizer.__recognize_user_classes")
+def _(self, node, expected_type, top):
+    properties('C03', 'C02', 'C13')
+    requires(reg_has(expected_type) and wf_ty(expected_type))
+    result_sort('RecResult')
+    ensures(forall_in(result[0], lambda r: concrete_ok(r)))
+    ensures(forall_in(result[0], lambda r: shape_ok(node, r)))
+    sort('causes', 'Seq[RErr]')
+    sort('recognized_subclasses', 'Set[Ty]')
+    # most-derived registered matches, disambiguated / rejected by the tag
+    ensures(result[0] == rec_hier(node, expected_type))
+    invariant(0, lambda _i: _i <= reg_len()
+              and recognized_subclasses == sub_union(node, expected_type, _i)
+              and forall_in(recognized_subclasses,
+                            lambda r: shape_ok(node, r))
+              and forall_in(recognized_subclasses,
+                            lambda r: concrete_ok(r)))
